@@ -37,8 +37,8 @@ TEXTS = {
                note="Trusted: Coq kernel (vm_compute only in the cross-check theorems), std++ gset/pmap; Go harness and hook points (tag verif). Not proved: that every schedule is finite (fair termination); InvalidateAll and the 100-refusal caller-runs fallback are outside the model; the model is replayed against the code at hook-point granularity, finer interleavings only through the model.",
                technique="Coq: inductive invariant of a small-step protocol model for unboundedly many threads (all schedules), cross-checked by kernel-computed exhaustive exploration of small populations + step-by-step correspondence replay of controlled schedules (sched) + perturbed stress with a no-further-calls quiescence oracle"),
     "C08": dict(text="Coq theorems over the single-flight protocol model (any number of threads and keys, every event order): loader intervals for one key never overlap unless a write/invalidation/eviction superseded the older call; "
-                     "a caller that finds a registered call joins it; every waiter is released by its call's finish for every outcome including panic; no in-flight record survives. Tied to the code by executing scripted interleavings "
-                     "with a gated loader and comparing joins, loader starts, releases and values with the model after every step.",
+                     "a caller that finds a registered call joins it; every waiter is released by its call's finish for every outcome including panic; no in-flight record survives. A bulk call is a run of per-key start events, one loader invocation, then one finish event per call it registered and one LVolunteer event per extra key its loader returned, freely interleaved with everybody else's events, so the theorems (all event lists) cover bulk calls over overlapping key sets. Tied to the code by executing scripted interleavings "
+                     "with a gated loader and comparing joins, loader starts, releases and values with the model after every step; bulk windows (an overlapping BulkGet joins an in-flight Get/BulkGet, its loader volunteering the joined key or not, the joined load ending in value / not-found / error) are held to the model's events by implementation-side oracles (no early return, the joined load's result, the final cache state).",
                design_ref="DESIGN.md section 5, C08", note=LOAD_NOTE, technique=LOAD_TECH),
     "C09": dict(text="Coq theorems: registered calls are exactly the pending unsuperseded ones; a value is installed only by a never-superseded call; a superseded load changes nothing; explicit writes/invalidations always take effect. "
                      "Engine: writes and invalidations placed before the loader starts, while it runs, and after it returned, for Get and Refresh; the cache's value is compared with the model after every step.",
@@ -63,7 +63,7 @@ TEXTS = {
                      "nothing else returned, an offer refused exactly when the queue holds its maximum (C16_refused_exactly_when_full, C16_size_bounded). The model (push split into reserve/publish) is compared with the "
                      "implementation after every call over all capacity pairs and growth steps, including producer-parked states; lemmas for arbitrary states: empty only when caught up, the consumer waits for a reserved "
                      "slot, no phantom element. C16_concurrent_fifo (theories/MpscConc.v): every interleaving of reserve (up to the winning index CAS, growth included) / publish (the slot store) / pop steps of any number of producers and the consumer is explained by a FIFO of reservations "
-                     "(exactly once, reservation order = per-producer order, the consumer waits at a reserved unpublished cell, refusal exactly when full). The loads inside one reserve (CAS retry, spinning during another producer's growth step) are atomic in the model; free-running oracles and parked-resize windows exercise them.",
+                     "(exactly once, reservation order = per-producer order, the consumer waits at a reserved unpublished cell, refusal exactly when full). The loads inside one reserve are atomic in that model; their granularity is justified by C16_index_protocol_safe (theories/MpscIndex.v, MpscIndexProofs.v): a small-step model of TryPush's individual loads and CASes (producer limit, producer index with the resize bit, mask/buffer, consumer index; the limit CAS of the slow path; the resize that stores a new limit) in which every value may be stale when used - for any number of producers, every schedule and any consumer progress the queue never exceeds its capacity, the limit never decreases, and a successful index CAS claims a slot of the CURRENT buffer inside its free window, also across a resize since the limit was read; free-running oracles and parked-resize windows exercise them.",
                design_ref="DESIGN.md section 0.2 and section 5, C16",
                note="Trusted: Coq kernel, extraction, OCaml replayer, Go harness, hook verifPoint in mpsc.go (tag verif). Interleavings beyond one parked producer are covered by free-running oracle checks only.",
                technique="Coq refinement proofs (sequential: chunked queue = bounded FIFO; concurrent producers at reserve/publish granularity: FIFO of reservations, all interleavings) + executable model with correspondence replay and hook-parked schedules"),
